@@ -292,7 +292,7 @@ package hessian
 
 //@ func setValue
 //@   maypanic reflect assignment of a decoded value whose type does not fit the destination
-//@   assigns @rset, @E
+//@   assigns @rset, @E, c.path, c.done, mapof(c.done)
 //@   loop 1 invariant [C14:setvalue-walk] true
 //@   loop 2 invariant [C14:setvalue-walk] true
 //@   ensures [C14:setvalue-total] true
@@ -320,7 +320,7 @@ package hessian
 
 //@ func convertSlice
 //@   maypanic reflect assignment of a decoded value whose type does not fit the destination
-//@   assigns @rset, @E
+//@   assigns @rset, @E, c.path, c.done, mapof(c.done)
 //@   loop 1 invariant [C14:convert-path] true
 //@   loop 2 invariant [C14:convert-index] 0 <= i
 //@   ensures [C14:convert-total] true
